@@ -94,69 +94,69 @@ theorem writeCalls_budget (k : Nat) (hist cs : List Str) (hk : hist.length ≤ k
 
 /-! ### Replaying a trace -/
 
-theorem runCalls_append (P : WriterPolicy) (hist a b : List Str) (r : Outcome XotError Unit) :
-    runCalls P hist (a ++ b, r) =
+theorem replayCalls_append (P : WriterPolicy) (hist a b : List Str) (r : Outcome XotError Unit) :
+    replayCalls P hist (a ++ b, r) =
       (match writeCalls P hist a with
-       | .ok h => runCalls P h (b, r)
+       | .ok h => replayCalls P h (b, r)
        | .error e => (e, .err .io)) := by
-  simp only [runCalls, writeCalls_append]
+  simp only [replayCalls, writeCalls_append]
   cases writeCalls P hist a <;> rfl
 
 /-- A threaded loop is its trace replayed against the writer. -/
-theorem writeLoopW_eq_runCalls {σ α : Type} (P : WriterPolicy)
+theorem writeLoopW_eq_replayCalls {σ α : Type} (P : WriterPolicy)
     (step : σ → α → List Str × Outcome XotError σ) (hist : List Str) (s : σ) (items : List α) :
-    writeLoopW P step hist s items = runCalls P hist (callsLoop step s items) := by
+    writeLoopW P step hist s items = replayCalls P hist (callsLoop step s items) := by
   induction items generalizing hist s with
-  | nil => simp [writeLoopW, callsLoop, runCalls, writeCalls]
+  | nil => simp [writeLoopW, callsLoop, replayCalls, writeCalls]
   | cons a rest ih =>
     simp only [writeLoopW, callsLoop]
     cases hr : (step s a).2 with
     | ok s' =>
       simp only []
-      rw [runCalls_append]
+      rw [replayCalls_append]
       cases hw : writeCalls P hist (step s a).1 with
       | ok h => simp only []; exact ih h s'
       | error e => rfl
     | err e =>
-      simp only [runCalls]
+      simp only [replayCalls]
       cases hw : writeCalls P hist (step s a).1 <;> rfl
     | panic =>
-      simp only [runCalls]
+      simp only [replayCalls]
       cases hw : writeCalls P hist (step s a).1 <;> rfl
 
 /-- A replay ends as the trace ends, or `Io`. -/
-theorem runCalls_outcome (P : WriterPolicy) (hist : List Str) (tr : List Str × Outcome XotError Unit) :
-    (runCalls P hist tr = ((hist ++ tr.1).flatten, tr.2)) ∨ (runCalls P hist tr).2 = .err .io := by
-  unfold runCalls
+theorem replayCalls_outcome (P : WriterPolicy) (hist : List Str) (tr : List Str × Outcome XotError Unit) :
+    (replayCalls P hist tr = ((hist ++ tr.1).flatten, tr.2)) ∨ (replayCalls P hist tr).2 = .err .io := by
+  unfold replayCalls
   cases hw : writeCalls P hist tr.1 with
   | ok h => left; rw [writeCalls_ok P _ _ _ hw]
   | error b => right; rfl
 
 /-- What the writer holds at the end is a prefix of the trace's bytes. -/
-theorem runCalls_prefix (P : WriterPolicy) (hist : List Str) (tr : List Str × Outcome XotError Unit) :
-    ∃ rest, (hist ++ tr.1).flatten = (runCalls P hist tr).1 ++ rest := by
-  unfold runCalls
+theorem replayCalls_prefix (P : WriterPolicy) (hist : List Str) (tr : List Str × Outcome XotError Unit) :
+    ∃ rest, (hist ++ tr.1).flatten = (replayCalls P hist tr).1 ++ rest := by
+  unfold replayCalls
   cases hw : writeCalls P hist tr.1 with
   | ok h => exact ⟨[], by rw [writeCalls_ok P _ _ _ hw]; simp⟩
   | error b => exact writeCalls_error P _ _ _ hw
 
 /-- A replay never turns into a panic: it panics only if the trace ends in one. -/
-theorem runCalls_panic (P : WriterPolicy) (hist : List Str) (tr : List Str × Outcome XotError Unit)
-    (h : (runCalls P hist tr).2 = .panic) : tr.2 = .panic := by
-  rcases runCalls_outcome P hist tr with h' | h'
+theorem replayCalls_panic (P : WriterPolicy) (hist : List Str) (tr : List Str × Outcome XotError Unit)
+    (h : (replayCalls P hist tr).2 = .panic) : tr.2 = .panic := by
+  rcases replayCalls_outcome P hist tr with h' | h'
   · rw [h'] at h; exact h
   · rw [h'] at h; cases h
 
-theorem runCalls_unlimited (hist : List Str) (tr : List Str × Outcome XotError Unit) :
-    runCalls WriterPolicy.unlimited hist tr = ((hist ++ tr.1).flatten, tr.2) := by
-  simp [runCalls, writeCalls_unlimited]
+theorem replayCalls_unlimited (hist : List Str) (tr : List Str × Outcome XotError Unit) :
+    replayCalls WriterPolicy.unlimited hist tr = ((hist ++ tr.1).flatten, tr.2) := by
+  simp [replayCalls, writeCalls_unlimited]
 
 /-- Call budget `k`, from an empty history: enough budget gives the trace's own end with all its bytes;
     otherwise `Io`, the writer holding exactly the first `k` calls. -/
-theorem runCalls_budget (k : Nat) (tr : List Str × Outcome XotError Unit) :
-    runCalls (WriterPolicy.budget (some k)) [] tr =
+theorem replayCalls_budget (k : Nat) (tr : List Str × Outcome XotError Unit) :
+    replayCalls (WriterPolicy.budget (some k)) [] tr =
       if tr.1.length ≤ k then (tr.1.flatten, tr.2) else ((tr.1.take k).flatten, .err .io) := by
-  simp only [runCalls, writeCalls_budget k [] tr.1 (Nat.zero_le _), List.length_nil, Nat.zero_add,
+  simp only [replayCalls, writeCalls_budget k [] tr.1 (Nat.zero_le _), List.length_nil, Nat.zero_add,
     List.nil_append, Nat.sub_zero]
   by_cases h : tr.1.length ≤ k
   · rw [if_pos h, if_pos h]
